@@ -195,6 +195,11 @@ def eq(a, b):
         return eq0(sub(a, b))
     if a[0] == 'bytes' and b[0] == 'bytes':
         return TRUE if a[1] == b[1] else FALSE
+    # equality with the empty sequence is emptiness
+    if a == ('bytes', b'') and b[0] not in ('adt', 'tuple', 'opaque'):
+        return eq0(mk_len(b))
+    if b == ('bytes', b'') and a[0] not in ('adt', 'tuple', 'opaque'):
+        return eq0(mk_len(a))
     if a[0] == 'adt' and b[0] == 'adt' and a[1] == b[1]:
         if a[2] != b[2]:
             return FALSE
